@@ -1,4 +1,4 @@
-//@props C02 C03 C04
+//@props C02 C03 C04 C11
 //@rewrite `naga::StorageAccess::LOAD` => `sa_load()` :: associated constants of a foreign bitflags type cannot be specified in Verus; sa_load() returns the real constant and states its bit value (spec/lib/prelude.rs)
 //@rewrite `naga::StorageAccess::STORE` => `sa_store()` :: as above
 //@rewrite `naga::StorageAccess::ATOMIC` => `sa_atomic()` :: as above
@@ -147,7 +147,7 @@ fn storage_access(access: naga::StorageAccess) -> «(r:» TokenStream«)
 }
 //@end
 
-//@fn bindgroup.rs::bind_group_layout_entry props=C02,C03
+//@fn bindgroup.rs::bind_group_layout_entry props=C02,C03,C11
 «#[verifier::rlimit(150)]»
 fn bind_group_layout_entry(
     binding: &GroupBinding,
@@ -157,7 +157,7 @@ fn bind_group_layout_entry(
         expected_bt(binding) is Some, // [C02.entry-pre] the documented feature set: every todo!()/panic! below is unreachable under it
         stage_map_ok(global_stages@),
     ensures
-        !msaa_float(binding) ==> ts_view(&r) == layout_entry_toks(binding, vis_bits(binding, global_stages@), expected_bt(binding)->0), // [C02.entry] [C03.visibility-lookup] own index, the recorded stage set (NONE if unreached), the layout type wgpu's interface validation accepts, count: None
+        !msaa_float(binding) ==> ts_view(&r) == layout_entry_toks(binding, vis_bits(binding, global_stages@), expected_bt(binding)->0), // [C02.entry] [C03.visibility-lookup] [C11.layout-index] own index, the recorded stage set (NONE if unreached), the layout type wgpu's interface validation accepts, count: None
         msaa_float(binding) ==> ts_view(&r) == layout_entry_toks(binding, vis_bits(binding, global_stages@), expected_bt(binding)->0), // [C02.msaa-float] multisampled float textures must not be filterable»
 {
     «broadcast use vstd::laws_cmp::group_laws_cmp, vstd::std_specs::btree::group_btree_axioms, axiom_string_obeys_cmp;»
@@ -267,7 +267,7 @@ fn bind_group_layout_entry(
 }
 //@end
 
-//@fn bindgroup.rs::bind_group_layout_descriptor props=C02,C04
+//@fn bindgroup.rs::bind_group_layout_descriptor props=C02,C04,C11
 fn bind_group_layout_descriptor(
     group_no: u32,
     group: &GroupData,
@@ -277,7 +277,7 @@ fn bind_group_layout_descriptor(
         forall|i: int| 0 <= i < group.bindings@.len() ==> expected_bt(&#[trigger] group.bindings@[i]) is Some && !msaa_float(&group.bindings@[i]),
         stage_map_ok(global_stages@),
     ensures
-        ts_view(&r) == layout_descriptor_toks(group_no, group.bindings@, global_stages@), // [C02.descriptor] [C04.layout-order] exactly one entry per binding of the group, in the order of the resource struct and of the BindGroupEntry list»
+        ts_view(&r) == layout_descriptor_toks(group_no, group.bindings@, global_stages@), // [C02.descriptor] [C04.layout-order] [C11.once] exactly one entry per binding of the group, in the order of the resource struct and of the BindGroupEntry list»
 {
     let entries: Vec<_> = group
         .bindings
@@ -342,10 +342,10 @@ fn bind_group_layout(group_no: u32, group: &GroupData) -> «(r:» TokenStream«)
 }
 //@end
 
-//@fn bindgroup.rs::bind_group props=C04
+//@fn bindgroup.rs::bind_group props=C04,C11
 fn bind_group(group_no: u32, group: &GroupData) -> «(r:» TokenStream«)
     requires forall|i: int| 0 <= i < group.bindings@.len() ==> binding_ok(&#[trigger] group.bindings@[i]),
-    ensures ts_view(&r) == bind_group_toks(group_no, group.bindings@),»
+    ensures ts_view(&r) == bind_group_toks(group_no, group.bindings@), // [C04.entries] [C11.own-index] one BindGroupEntry per binding of the group, in order, carrying that binding's own @binding index and the resource of the field named after it; `set` binds the group at its own index»
 {
     let entries: Vec<_> = group
         .bindings
@@ -421,7 +421,7 @@ fn bind_group(group_no: u32, group: &GroupData) -> «(r:» TokenStream«)
 }
 //@end
 
-//@fn bindgroup.rs::bind_groups_module props=C04
+//@fn bindgroup.rs::bind_groups_module props=C04,C11
 «#[verifier::rlimit(150)]»
 pub fn bind_groups_module(
     bind_group_data: &BTreeMap<u32, GroupData>,
@@ -431,7 +431,7 @@ pub fn bind_groups_module(
         groups_supported(bind_group_data@), // [C04.module-pre] documented feature set for every binding of every group
         stage_map_ok(global_stages@),
     ensures
-        forall|ks: Seq<u32>| is_keys(ks, bind_group_data@.dom()) ==> ts_view(&r) == #[trigger] bind_groups_module_toks(ks, bind_group_data@, global_stages@), // [C04.module] per group (ascending): its struct, resource struct, layout descriptor and impl; BindGroups has one field per group; set_bind_groups and BindGroups::set call bind_group{k}.set(pass) exactly once per group k; the three SetBindGroup impls forward (index, bind_group, offsets) unchanged»
+        forall|ks: Seq<u32>| is_keys(ks, bind_group_data@.dom()) ==> ts_view(&r) == #[trigger] bind_groups_module_toks(ks, bind_group_data@, global_stages@), // [C04.module] [C11.groups] per group (ascending, under its own number): its struct, resource struct, layout descriptor and impl; BindGroups has one field per group; set_bind_groups and BindGroups::set call bind_group{k}.set(pass) exactly once per group k; the three SetBindGroup impls forward (index, bind_group, offsets) unchanged»
 {
     «broadcast use vstd::laws_cmp::group_laws_cmp, vstd::std_specs::btree::group_btree_axioms;
     let ghost m = bind_group_data@;
